@@ -88,6 +88,7 @@ func cmdCheck(args []string) {
 	prop := fs.String("prop", "", "property id")
 	tier := fs.String("tier", "quick", "quick|thorough")
 	writeExpected := fs.Bool("write-expected", false, "(re)write the expected-obligation list of the property")
+	slow := fs.Int("slow", 0, "print the N slowest obligations")
 	fs.Parse(args)
 	if *prop == "" {
 		fmt.Fprintln(os.Stderr, "missing -prop")
@@ -215,6 +216,13 @@ func cmdCheck(args []string) {
 			what = "vacuity guard failed (precondition / path is unsatisfiable): " + o.Text
 		}
 		viols = append(viols, viol{id: o.ID(), what: what, o: o})
+	}
+	if *slow > 0 {
+		so := append([]*vc.Obligation{}, obls...)
+		sort.Slice(so, func(i, j int) bool { return so[i].Seconds > so[j].Seconds })
+		for i := 0; i < *slow && i < len(so); i++ {
+			fmt.Printf("SLOW %.2fs %s %s facts=%d %s\n", so[i].Seconds, so[i].Solver, so[i].Status, so[i].NFact, so[i].ID())
+		}
 	}
 	// report
 	nviol := 0
